@@ -114,6 +114,7 @@ class Evaluator:
     self.loop_stack = []
     self.gen_state = {}    # id -> dict(items=[terms], pos=int) for summarised generators
     self.cond_log = []     # every traced two-armed conditional met: (term, function, node)
+    self.leaf_override = {}  # tree term -> term standing for its generic leaf (lets a rule name 'the parameter' of a tree map)
     self.vmap_log = []     # (vmapped wrapper term, args, result, caller): which calls ran under jax.vmap and with which axes
     self.loop_ctl = []     # per active loop: list of (cond, snapshot, kind) for undecided continue/break
     self._ids = 0
@@ -1778,6 +1779,8 @@ class Evaluator:
     return fn(v)
 
   def leaf_of(self, t):
+    if t in self.leaf_override:
+      return self.leaf_override[t]
     if t.op == 'tmap':
       return t.args[0]
     if t.op == 'list' and t.args and all(x.op == 'star' for x in t.args):
